@@ -49,6 +49,10 @@ const HKEYS: [&str; 4] = ["x", "y", "z", "s"];
 const POISON: &str = "\u{1}unresolved: ";
 
 fn value(rng: &mut Rng, key: &str) -> String {
+    if rng.chance(0.06) {
+        // (what a flag wants to hear; a number elsewhere rejects it on both routes)
+        return "true".into();
+    }
     if key == "s" {
         format!("{}", rng.int(-9, 9) * 100000)
     } else {
@@ -95,6 +99,18 @@ fn gen_step(rng: &mut Rng, macros: &[MacroDef], in_pipeline: bool) -> PStep {
             if rng.chance(0.55) {
                 ps.push((k.to_string(), bind(rng, k, true)));
             }
+        }
+        if rng.chance(0.25) {
+            // a flag bound like any other parameter (with a rotation, so that it matters)
+            ps.push(("rz".to_string(), Bind::Lit("7200".into())));
+            ps.push(("convention".to_string(), Bind::Lit("position_vector".into())));
+            let b = match rng.below(5) {
+                0 => Bind::Lit("true".into()),
+                1 | 2 => Bind::Ref(rng.pick(&NAMES).to_string()),
+                3 => Bind::RefDef(rng.pick(&NAMES).to_string(), "true".into()),
+                _ => Bind::Def("true".into()),
+            };
+            ps.push(("exact".to_string(), b));
         }
         Kind::Helmert(ps)
     };
@@ -186,7 +202,7 @@ fn expand(s: &PStep, macros: &[MacroDef], env: &BTreeMap<String, String>, depth:
                 eff.insert(k.clone(), resolve(k, b)?);
             }
             let mut def = String::from("helmert");
-            for k in HKEYS {
+            for k in HKEYS.iter().copied().chain(["rz", "convention", "exact"]) {
                 if let Some(v) = eff.get(k) {
                     if let Some(why) = v.strip_prefix(POISON) {
                         return Err(why.to_string());
@@ -227,6 +243,14 @@ fn expand(s: &PStep, macros: &[MacroDef], env: &BTreeMap<String, String>, depth:
         omit_fwd: s.omit_fwd,
         omit_inv: s.omit_inv,
     })
+}
+
+/// Every elementary step of a literal expansion instantiates on its own
+fn instantiable(ctx: &mut Minimal, s: &Step) -> bool {
+    match &s.body {
+        Body::Elem(def) => ctx.op(def).is_ok(),
+        Body::Macro { steps, .. } => steps.iter().all(|x| instantiable(ctx, x)),
+    }
 }
 
 fn levels(s: &Step) -> usize {
@@ -342,6 +366,13 @@ fn equivalence(h: &H, idx: u64, rng: &mut Rng) {
             (Ok(st), Err(e)) => {
                 if matches!(e, Error::Recursion(_, _)) && 2 * levels(st) + 8 > 90 {
                     h.class("outcome/recursion-limit");
+                    return;
+                }
+                // a value of the wrong type ('true' for a real, a number for a flag) makes the
+                // literal expansion itself invalid: both routes refuse
+                if !instantiable(&mut ctx, st) {
+                    h.class("outcome/both-error");
+                    h.eval(1);
                     return;
                 }
                 h.violation(
